@@ -493,7 +493,12 @@ class AtomSelection:
 
         sel = AtomSelection(atoms, sel_i)
         if periodic:
-            sel.set_array("cell_indices", grid_frac[where_i[1]] - pos_shifts[where_i[0]])
+            if any(atoms.get_pbc()):
+                cell_indices = grid_frac[where_i[1]] - pos_shifts[where_i[0]]
+            else:
+                # No periodic direction: every atom is its own only copy
+                cell_indices = np.zeros((len(sel_i), 3))
+            sel.set_array("cell_indices", cell_indices)
 
         return sel
 
@@ -540,7 +545,12 @@ class AtomSelection:
 
         sel = AtomSelection(atoms, sel_i)
         if periodic:
-            sel.set_array("cell_indices", grid_frac[where_i[1]] - pos_shifts[where_i[0]])
+            if any(atoms.get_pbc()):
+                cell_indices = grid_frac[where_i[1]] - pos_shifts[where_i[0]]
+            else:
+                # No periodic direction: every atom is its own only copy
+                cell_indices = np.zeros((len(sel_i), 3))
+            sel.set_array("cell_indices", cell_indices)
 
         return sel
 
